@@ -99,6 +99,7 @@ func cmdFn(args []string) {
 	mode := fs.String("mode", "full", "safety|full")
 	verbose := fs.Bool("v", false, "verbose")
 	timeout := fs.Int("t", 10000, "solver timeout ms")
+	dump := fs.String("dump", "", "directory to write the SMT scripts of undischarged obligations to")
 	if len(args) < 1 {
 		usage()
 	}
@@ -115,6 +116,14 @@ func cmdFn(args []string) {
 	discharge(rep.Obs, dischargeOpts{timeoutMs: *timeout, workers: 16})
 	dischargeCovers(rep.Covers, dischargeOpts{timeoutMs: 3000, workers: 16})
 	printReport(rep, *verbose)
+	if *dump != "" {
+		os.MkdirAll(*dump, 0o755)
+		for _, o := range rep.Obs {
+			if o.Result != nil && o.Result.Status != "unsat" {
+				os.WriteFile(fmt.Sprintf("%s/%s_p%d.smt2", *dump, sanitize(o.Name), o.PathID), []byte(obligationScript(o, false, false)), 0o644)
+			}
+		}
+	}
 }
 
 func printReport(rep *FnReport, verbose bool) {
